@@ -151,7 +151,9 @@ func runC11(c *Ctx) {
 		present := f.CondEdges(func(e ast.Expr) bool { id, ok := e.(*ast.Ident); return ok && info.ObjectOf(id) == existsObj && existsObj != nil }, true)
 		ins := func(n ast.Node) bool { _, _, ok := isMapWrite(info, n, pids); return ok }
 		w := f.AfterEdgesMayReach(present, nil, nil, ins)
-		c.Check(w == nil && len(present) > 0, "exists⇏insert", "an ID that is already registered is never inserted again", c.P.Pos(an.Decl.Pos()), f.describe(w))
+		absent := f.CondEdges(func(e ast.Expr) bool { id, ok := e.(*ast.Ident); return ok && info.ObjectOf(id) == existsObj && existsObj != nil }, false)
+		wAbs := f.search(searchSpec{avoidEdges: absent, target: ins})
+		c.Check(w == nil && len(present) > 0 && wAbs == nil && len(absent) > 0, "exists⇏insert", "an ID is inserted only on the edge where the index lookup found it absent (an ID that is already registered is never inserted again)", c.P.Pos(an.Decl.Pos()), f.describe(w)+f.describe(wAbs))
 		w = f.AfterEdgesMustPass(present, func(n ast.Node) bool {
 			r, ok := n.(*ast.ReturnStmt)
 			return ok && len(r.Results) == 1 && objOf(info, r.Results[0]) == errExists
